@@ -200,6 +200,7 @@ func (sc *c15Scenario) runClosing(s *simrt.Sim, ths []*simrt.Thread, closeFn fun
 			h.Do("closer", "submit-quit-message", nil, func() (interface{}, error) { closeFn(); return nil, nil })
 			return
 		}
+		s.Fault("close-while-users-active:" + sc.Kind)
 		sc.closeOp = h.Do("closer", "Close", nil, func() (interface{}, error) { closeFn(); return nil, nil })
 	})
 	ths = append(ths, closer)
